@@ -617,8 +617,87 @@ func buildStale(b int, all, slice bool, w string, timeout int64) Scenario {
 	return sc
 }
 
+// buildView: n subscribers; a view on subscriber j; then one of
+//
+//	"unsub" i (i != j: another subscription, earlier or later, is removed from the parent),
+//	"subview" (SubBuf on the view), "subparent" (SubBuf on the parent);
+//
+// then a publish through the view and a publish on the parent. The view's own
+// channel is never unsubscribed here (that is the stale-view known finding).
+// threads: 0 setup, 1 WithOnly, 2 middle, 3 publish on the view, 4 publish on the parent,
+//
+//	5 final UnsubAll on the parent, 6 Unsub (through the view) of the channel subscribed on the view,
+//	7.. receivers (all eager)
+func buildView(n, j int, mid string, i, b int, vw string, vslice bool) Scenario {
+	sc := Scenario{CbSet: true}
+	var setup []Op
+	for k := 0; k < n; k++ {
+		setup = append(setup, Op{Op: "subbuf", Size: b})
+	}
+	nch := n
+	var m, last []Op
+	switch mid {
+	case "unsub":
+		m = []Op{{Op: "unsub", Sub: i}}
+	case "subview":
+		m = []Op{{Op: "subbuf", Obj: 1, Size: b}}
+		last = []Op{{Op: "unsub", Obj: 1, Sub: n}}
+		nch++
+	case "subparent":
+		m = []Op{{Op: "subbuf", Size: b}}
+		nch++
+	}
+	vp := Op{Op: "pub1", W: vw, Obj: 1, Evs: []int{41}}
+	if vslice {
+		vp = Op{Op: "pubs", W: vw, Obj: 1, Evs: []int{41, 42}}
+	}
+	sc.Progs = [][]Op{setup, {{Op: "withonly", Sub: j}}, m, {vp}, {{Op: "pub1", W: "Sync", Evs: []int{51}}}, {{Op: "unsuball"}}, last}
+	for k := 0; k < nch; k++ {
+		sc.Progs = append(sc.Progs, []Op{{Op: "range", Sub: k}})
+	}
+	var rel []int
+	phase := func(ts ...int) {
+		rel = append(rel, ts...)
+		sc.Phases = append(sc.Phases, append([]int{}, rel...))
+	}
+	phase(0)
+	var rs []int
+	for k := 0; k < n; k++ {
+		rs = append(rs, 7+k)
+	}
+	phase(rs...)
+	phase(1)
+	phase(2)
+	if nch > n {
+		phase(7 + n)
+	}
+	phase(3)
+	phase(4)
+	phase(5)
+	if len(last) > 0 {
+		phase(6)
+	}
+	sc.Desc = fmt.Sprintf("view family: %d subscribers (buffer %d), WithOnly(%d), then %s %d, then %s(slice=%v) through the view, PubSync on the parent", n, b, j, mid, i, vw, vslice)
+	return sc
+}
+
 func run(c *core.Ctx) {
 	var scs []Scenario
+	// WithOnly views next to changes of the parent's or the view's subscription list (every run)
+	for n := 2; n <= 4; n++ {
+		for j := 0; j < n; j++ {
+			for b := 0; b <= 1; b++ {
+				for vi, vw := range []string{"Sync", "Sync", "Async"} {
+					for i := 0; i < n; i++ {
+						if i != j {
+							scs = append(scs, buildView(n, j, "unsub", i, b, vw, vi == 1))
+						}
+					}
+					scs = append(scs, buildView(n, j, "subview", 0, b, vw, vi == 1), buildView(n, j, "subparent", 0, b, vw, vi == 1))
+				}
+			}
+		}
+	}
 	// second known finding: a publish through a WithOnly view after the parent removed its channel (every run)
 	for b := 0; b <= 1; b++ {
 		for _, all := range []bool{false, true} {
@@ -817,11 +896,18 @@ func refOf(sc Scenario) *reference {
 					}
 					return rf.views[obj]
 				}
+				setSubs := func(obj int, l []int) {
+					if obj == 0 {
+						rf.subs = l
+					} else {
+						rf.views[obj] = l
+					}
+				}
 				switch op.Op {
 				case "range":
 					continue
 				case "sub", "subbuf":
-					rf.subs = append(rf.subs, rf.nch)
+					setSubs(op.Obj, append(append([]int{}, subsOf(op.Obj)...), rf.nch))
 					rf.allSync[rf.nch] = true
 					rf.rets[t] = append(rf.rets[t], []int{1, rf.nch})
 					rf.nch++
@@ -858,7 +944,8 @@ func refOf(sc Scenario) *reference {
 					rf.rets[t] = append(rf.rets[t], []int{0})
 				case "unsub":
 					idx := -1
-					for i, s := range rf.subs {
+					cur := subsOf(op.Obj)
+					for i, s := range cur {
 						if s == op.Sub {
 							idx = i
 						}
@@ -870,14 +957,16 @@ func refOf(sc Scenario) *reference {
 						rf.rets[t] = append(rf.rets[t], []int{4})
 					default:
 						rf.closedBy[op.Sub] = [2]int{t, ci}
-						rf.subs = append(append([]int{}, rf.subs[:idx]...), rf.subs[idx+1:]...)
+						setSubs(op.Obj, append(append([]int{}, cur[:idx]...), cur[idx+1:]...))
 						rf.rets[t] = append(rf.rets[t], []int{3})
 					}
 				case "unsuball":
-					for _, s := range rf.subs {
-						rf.closedBy[s] = [2]int{t, ci}
+					for _, s := range subsOf(op.Obj) {
+						if _, gone := rf.closedBy[s]; !gone {
+							rf.closedBy[s] = [2]int{t, ci}
+						}
 					}
-					rf.subs = nil
+					setSubs(op.Obj, nil)
 					rf.rets[t] = append(rf.rets[t], []int{3})
 				}
 			}
